@@ -27,6 +27,9 @@ PATHS = ['src/main.rs', 'a.py', 'lib/util-x.c', 'src/co-7-fig.rs', 'x/y.z/w.js',
          'pkg/foo-1.0-2-src/main.c', 'my dir/lib.v2-beta.rs', 'rel-2.1=3=x/mod.py']
 # coloured output and rg --json mark the path: anything may be in it
 HOSTILE_PATHS = ['x-12-y.c', 'a:b.rs', 'k=v.conf', './rel/p.rs', '../up.rs', '/abs/path.py', 'we ird:12:name.txt', 'dir/file:10:fn main.rs', 'Make-7-file', 'a.b-c=d:e']
+# paths whose text starts like a line delta renders as something else (recorded finding for coloured input; rg --json records
+# start with '{' and are read correctly)
+MARKER_PATHS = ['diff tool/x.rs', 'commit 1/notes.txt', 'Submodule docs/a.md', '--- a/old.c']
 LOOKALIKE = re.compile(r'[\w-]+\.\w+[:=-]\d+[:=-]')
 PATH_WITH_EXT = re.compile(r'^[^:| ][^:]*[^ :]\.[^. :=-]{1,10}$')    # what delta's numbered-line pattern takes for a path
 EXT_THEN_SEP = re.compile(r'[^ ]\.[^. :=-]{1,10}[:=-]')
@@ -42,6 +45,8 @@ def gen_model(rng, fmt, headers=False):
     used = set()
     for _ in range(rng.randint(1, 3)):
         p = rng.choice(PATHS + (HOSTILE_PATHS if not fmt.startswith('plain') else []))
+        if not fmt.startswith('plain') and rng.random() < 0.008:
+            p = rng.choice(MARKER_PATHS)
         if p in used:
             continue
         if fmt.startswith('plain') and ('.' not in os.path.basename(p)) and any(c in p for c in ':-='):
@@ -225,7 +230,12 @@ def run_item(item):
     def bad(key, what, exp, obs):
         shape = ''
         h = cur['hit']
-        if h is not None and fmt == 'plain' and h[1] == 'context' and h[2][:1] in ':=-':
+        if fmt.startswith('color') and any(p_ in MARKER_PATHS for p_, _h in model):
+            # coloured grep output with a path that starts like a diff / commit / submodule line: the handlers of those
+            # constructs are asked first and take the line (known finding); everything after it may be affected
+            shape = ':path-starts-like-a-diff-or-commit-line'
+            key = 'misread'
+        elif h is not None and fmt == 'plain' and h[1] == 'context' and h[2][:1] in ':=-':
             # the one input shape for which the plain format without numbers is misread (known finding)
             shape = ':context-line-whose-code-starts-with-a-separator'
             key = 'misparsed'
